@@ -36,6 +36,25 @@ def server_context(slaves, single):
     return ModbusServerContext(slaves=slaves, single=single)
 
 
+
+def _tw_start(helper, listen, context, fcls, **kw):
+    """the Twisted server object as the library's own start helper builds it (reactor not run, nothing bound)"""
+    from twisted.internet import reactor
+    import pymodbus.server.asynchronous as pa
+    got = []
+    had = listen in vars(reactor)
+    orig = vars(reactor).get(listen)
+    setattr(reactor, listen, lambda port, obj, **k: got.append(obj))
+    try:
+        getattr(pa, helper)(context, identity=None, address=('127.0.0.1', 5020), defer_reactor_run=True, framer=fcls, **kw)
+    finally:
+        if had:
+            setattr(reactor, listen, orig)
+        else:
+            delattr(reactor, listen)
+    return got[0]
+
+
 class _Sock(object):
     """fake stream socket / serial port for the synchronous handlers"""
 
@@ -224,14 +243,13 @@ class Server(object):
 
     # ---------------------------------------------------------------- twisted
     def _init_tw_tcp(self, fcls):
-        from pymodbus.server.asynchronous import ModbusServerFactory
-        self.obj = ModbusServerFactory(self.context, fcls, None, ignore_missing_slaves=self.flags['ignore_missing_slaves'])
-        self.neighbour_server = ModbusServerFactory(_neighbour_context(), fcls, None, ignore_missing_slaves=not self.flags['ignore_missing_slaves'])
+        # built the way an application builds them: through the library's Start* helper, with the reactor's listen call intercepted
+        self.obj = _tw_start('StartTcpServer', 'listenTCP', self.context, fcls, ignore_missing_slaves=self.flags['ignore_missing_slaves'])
+        self.neighbour_server = _tw_start('StartTcpServer', 'listenTCP', _neighbour_context(), fcls, ignore_missing_slaves=not self.flags['ignore_missing_slaves'])
 
     def _init_tw_udp(self, fcls):
-        from pymodbus.server.asynchronous import ModbusUdpProtocol
-        self.obj = ModbusUdpProtocol(self.context, fcls, None, ignore_missing_slaves=self.flags['ignore_missing_slaves'])
-        self.neighbour_server = ModbusUdpProtocol(_neighbour_context(), fcls, None, ignore_missing_slaves=not self.flags['ignore_missing_slaves'])
+        self.obj = _tw_start('StartUdpServer', 'listenUDP', self.context, fcls, ignore_missing_slaves=self.flags['ignore_missing_slaves'])
+        self.neighbour_server = _tw_start('StartUdpServer', 'listenUDP', _neighbour_context(), fcls, ignore_missing_slaves=not self.flags['ignore_missing_slaves'])
         self.tr = _TwDgram()
         self.obj.transport = self.tr
 
